@@ -89,18 +89,27 @@ ChainCls == {"lane", "lsec", "rsec"}
 \* successor/predecessor are single-valued ("only set when unique"): x.succ = y demands
 \* y.pred = x unless y names nobody or several elements flow into y; x.pred = y demands
 \* y.succ = x unless y branches into several elements.
+\* (g.S.succof[y] / g.S.predof[y]: the same-class elements x with x.succ = y / x.pred = y -- an
+\* inverse index supplied by the harness only to avoid a quadratic scan; I_InverseIndexExact
+\* checks that it IS the inverse of F.succ / F.pred, so nothing is taken on trust)
 Bad_SuccPredAgree(g) ==
   {x \in Ids(g) : /\ g.cls[x] \in ChainCls
                   /\ LET y == g.F.succ[x] IN
                        /\ y \in Ids(g) /\ g.cls[y] = g.cls[x]
                        /\ ~(\/ g.F.pred[y] = x \/ g.F.pred[y] = 0
-                            \/ \E z \in Ids(g) : z # x /\ g.cls[z] = g.cls[x] /\ g.F.succ[z] = y)}
+                            \/ \E z \in Rng(g.S.succof[y]) : z # x)}
 Bad_PredSuccAgree(g) ==
   {x \in Ids(g) : /\ g.cls[x] \in ChainCls
                   /\ LET y == g.F.pred[x] IN
                        /\ y \in Ids(g) /\ g.cls[y] = g.cls[x]
                        /\ ~(\/ g.F.succ[y] = x
-                            \/ \E z \in Ids(g) : z # x /\ g.cls[z] = g.cls[x] /\ g.F.pred[z] = y)}
+                            \/ \E z \in Rng(g.S.predof[y]) : z # x)}
+InverseIndexExact(g) ==
+  \A x \in Ids(g) :
+     /\ \A z \in Rng(g.S.succof[x]) : z \in Ids(g) /\ g.cls[z] = g.cls[x] /\ g.F.succ[z] = x
+     /\ \A z \in Rng(g.S.predof[x]) : z \in Ids(g) /\ g.cls[z] = g.cls[x] /\ g.F.pred[z] = x
+     /\ LET y == g.F.succ[x] IN (y \in Ids(g) /\ g.cls[y] = g.cls[x]) => x \in Rng(g.S.succof[y])
+     /\ LET y == g.F.pred[x] IN (y \in Ids(g) /\ g.cls[y] = g.cls[x]) => x \in Rng(g.S.predof[y])
 \* two ordinary roads linked at either end name each other
 Bad_RoadLinksTwoWay(g) ==
   {r \in OfClass(g, "road") :
@@ -220,14 +229,17 @@ Bad_LaneManeuvers(g) ==
 \* every maneuver of an intersection goes through it: it has a connecting lane, names the
 \* intersection, starts on an incoming and ends on an outgoing lane of roads of the intersection
 Bad_IntersectionManeuvers(g) ==
+  UNION {{k \in Rng(g.S.mans[i]) :
+            \/ k \notin Mn(g)
+            \/ LET r == Man(g, k) IN
+                 ~(/\ r.conn # 0 /\ r.inter = i
+                   /\ k \in Rng(Sv(g, "mans", r.start))
+                   /\ r.start \in Rng(g.S.incoming[i]) /\ r.end \in Rng(g.S.outgoing[i])
+                   /\ Fv(g, "road", r.start) \in Rng(g.S.iroads[i])
+                   /\ Fv(g, "road", r.end) \in Rng(g.S.iroads[i]))} : i \in Rng(g.inters)}
+  \cup
   {k \in Mn(g) : LET r == Man(g, k) IN
-     \/ \E i \in Rng(g.inters) : k \in Rng(g.S.mans[i]) /\
-           ~(/\ r.conn # 0 /\ r.inter = i
-             /\ k \in Rng(Sv(g, "mans", r.start))
-             /\ r.start \in Rng(g.S.incoming[i]) /\ r.end \in Rng(g.S.outgoing[i])
-             /\ Fv(g, "road", r.start) \in Rng(g.S.iroads[i])
-             /\ Fv(g, "road", r.end) \in Rng(g.S.iroads[i]))
-     \/ (r.inter \in Ids(g) /\ (Cl(g, r.inter) # "inter" \/ k \notin Rng(Sv(g, "mans", r.inter))))}
+      r.inter \in Ids(g) /\ (Cl(g, r.inter) # "inter" \/ k \notin Rng(Sv(g, "mans", r.inter)))}
 \* incoming / outgoing lanes are lanes of the intersection's roads; a maneuver of an incoming
 \* lane that goes through an intersection goes through this one
 Bad_IncomingOutgoing(g) ==
@@ -282,10 +294,9 @@ Dev_ReverseOfMerger(g) ==
 \* its maneuvers have a connecting lane.  The documentation allows mergers ("None for lane
 \* mergers"), and maps whose connecting lanes lack a successor produce them (misc/Issue189.xodr).
 Diag_IncomingThroughIntersection(g) ==
-  {l \in Ids(g) : \E i \in Rng(g.inters) :
-      /\ l \in Rng(g.S.incoming[i])
-      /\ \/ Fv(g, "succ", l) \notin ConnOf(g, i)
-         \/ \E k \in Rng(Sv(g, "mans", l)) : k \in Mn(g) /\ Man(g, k).conn = 0}
+  UNION {{l \in Rng(g.S.incoming[i]) :
+            \/ Fv(g, "succ", l) \notin ConnOf(g, i)
+            \/ \E k \in Rng(Sv(g, "mans", l)) : k \in Mn(g) /\ Man(g, k).conn = 0} : i \in Rng(g.inters)}
 
 \* ================================================================== group 4: lookups
 Exact(p) == Rng(p.inn)
@@ -548,6 +559,8 @@ I_IntersectionDirectionTangent == Holds("IntersectionDirectionTangent")
 I_NominalDirections == Holds("NominalDirections")
 I_ShoulderDirection == Holds("ShoulderDirection")
 
+\* machinery: the inverse index used by Succ/PredSuccAgree is exact (a violation is a harness bug)
+I_InverseIndexExact == (step = 0) => InverseIndexExact(Net)
 \* sensitivity, checked by TLC itself: a harness-made mutant must be flagged on every conjunct the
 \* harness predicted (Net.expect)
 I_MutantsCaught == (Done /\ IsMutant) => Rng(Net.expect) \subseteq Violated
